@@ -13,7 +13,9 @@ for P in sorted(x for x in os.listdir(out_root) if os.path.isdir(os.path.join(ou
         checks = re.findall(r"^check_(C\d+) rc=(\d+) (\d+) violation-lines; first: (.*)$", s, re.M)
         confirmed = kv.get("demo_clean_rc") == "0" and kv.get("demo_mut_rc") not in (None, "0") and "apply" not in kv
         pytest_line = kv.get("pytest", "")
-        suite_ok = ("2 failed" in pytest_line and "267 passed" in pytest_line) or pytest_line.startswith("FAILED test/test_generators.py::test_generators_return_no_annotations[False-beartype]")
+        fails = set(re.findall(r"(test/\S+)", pytest_line.split("failing:")[-1])) if "failing:" in pytest_line else None
+        known = {"test/test_generators.py::test_generators_simple[False-beartype]", "test/test_generators.py::test_generators_return_no_annotations[False-beartype]"}
+        suite_ok = ("267 passed" in pytest_line and fails == known) if fails is not None else pytest_line.startswith("FAILED test/test_generators.py::test_generators_return_no_annotations[False-beartype]")
         caught = [c for c, rc, n, first in checks if rc == "1"]
         undecided = [c for c, rc, n, first in checks if rc == "2"]
         dst = f"/verif/seeded/{P}-{M}"
